@@ -115,12 +115,12 @@ open Select
 /-- a filter stage only removes candidates: same parents in the same order, each list of
 individuals a sublist of what it was -/
 def Shrinks (cs out : List Cand) : Prop :=
-  List.Forall₂ (fun c c' => c'.deme = c.deme ∧ c'.level = c.level ∧ c'.inds.Subperm c.inds) cs out
+  List.Forall₂ (fun c c' => c'.deme = c.deme ∧ c'.level = c.level ∧ c'.nbcMean = c.nbcMean ∧ c'.inds.Subperm c.inds) cs out
 
 theorem Shrinks.refl (cs : List Cand) : Shrinks cs cs := by
   induction cs with
   | nil => exact .nil
-  | cons c cs ih => exact .cons ⟨rfl, rfl, List.Subperm.refl _⟩ ih
+  | cons c cs ih => exact .cons ⟨rfl, rfl, rfl, List.Subperm.refl _⟩ ih
 
 theorem Shrinks.trans {a b c : List Cand} (h1 : Shrinks a b) (h2 : Shrinks b c) : Shrinks a c := by
   induction h1 generalizing c with
@@ -128,13 +128,13 @@ theorem Shrinks.trans {a b c : List Cand} (h1 : Shrinks a b) (h2 : Shrinks b c) 
   | cons hab _ ih =>
     cases h2 with
     | cons hbc htl =>
-      exact .cons ⟨hbc.1.trans hab.1, hbc.2.1.trans hab.2.1, hbc.2.2.trans hab.2.2⟩ (ih htl)
+      exact .cons ⟨hbc.1.trans hab.1, hbc.2.1.trans hab.2.1, hbc.2.2.1.trans hab.2.2.1, hbc.2.2.2.trans hab.2.2.2⟩ (ih htl)
 
 theorem shrinks_map_filter (p : Cand → Ind → Bool) (cs : List Cand) :
     Shrinks cs (cs.map fun c => { c with inds := c.inds.filter (p c) }) := by
   induction cs with
   | nil => exact .nil
-  | cons c cs ih => exact .cons ⟨rfl, rfl, List.filter_sublist.subperm⟩ ih
+  | cons c cs ih => exact .cons ⟨rfl, rfl, rfl, List.filter_sublist.subperm⟩ ih
 
 theorem shrinks_map_level (mx : Bool) (l : Nat) (cut : Ind) (cs : List Cand) :
     Shrinks cs (cs.map fun c => if c.level == l then { c with inds := c.inds.filter fun i => better mx i cut } else c) := by
@@ -144,8 +144,8 @@ theorem shrinks_map_level (mx : Bool) (l : Nat) (cut : Ind) (cs : List Cand) :
     refine .cons ?_ ih
     simp only
     split
-    · exact ⟨rfl, rfl, List.filter_sublist.subperm⟩
-    · exact ⟨rfl, rfl, List.Subperm.refl _⟩
+    · exact ⟨rfl, rfl, rfl, List.filter_sublist.subperm⟩
+    · exact ⟨rfl, rfl, rfl, List.Subperm.refl _⟩
 
 theorem Shrinks.total_le {cs out : List Cand} (h : Shrinks cs out) (l : Nat) : total l out ≤ total l cs := by
   induction h with
@@ -155,7 +155,7 @@ theorem Shrinks.total_le {cs out : List Cand} (h : Shrinks cs out) (l : Nat) : t
     simp only [total, List.filter_cons, hab.2.1] at ih ⊢
     split
     · simp only [List.flatMap_cons, List.length_append]
-      have := hab.2.2.length_le
+      have := hab.2.2.2.length_le
       omega
     · exact ih
 
@@ -239,7 +239,7 @@ namespace Sprout
 open Select
 
 theorem shrinks_map (g : Cand → Cand) (cs : List Cand)
-    (hg : ∀ c, (g c).deme = c.deme ∧ (g c).level = c.level ∧ (g c).inds.Subperm c.inds) :
+    (hg : ∀ c, (g c).deme = c.deme ∧ (g c).level = c.level ∧ (g c).nbcMean = c.nbcMean ∧ (g c).inds.Subperm c.inds) :
     Shrinks cs (cs.map g) := by
   induction cs with
   | nil => exact .nil
@@ -296,7 +296,7 @@ theorem applyFilter_shrinks {v : View} {env : Env} {f : Filter} {cs out : List C
   | farEnough thr =>
     simp only [applyFilter, Option.some.injEq] at h
     subst h
-    exact shrinks_map _ _ fun c => ⟨rfl, rfl, List.filter_sublist.subperm⟩
+    exact shrinks_map _ _ fun c => ⟨rfl, rfl, rfl, List.filter_sublist.subperm⟩
   | nbcFarEnough factor onlyActive =>
     simp only [applyFilter] at h
     split at h
@@ -307,9 +307,9 @@ theorem applyFilter_shrinks {v : View} {env : Env} {f : Filter} {cs out : List C
       intro c
       split
       · split
-        · exact ⟨rfl, rfl, List.filter_sublist.subperm⟩
-        · exact ⟨rfl, rfl, (List.nil_sublist _).subperm⟩
-      · refine ⟨rfl, rfl, ?_⟩
+        · exact ⟨rfl, rfl, rfl, List.filter_sublist.subperm⟩
+        · exact ⟨rfl, rfl, rfl, (List.nil_sublist _).subperm⟩
+      · refine ⟨rfl, rfl, rfl, ?_⟩
         simp only
         split
         · exact List.Subperm.refl _
@@ -317,7 +317,7 @@ theorem applyFilter_shrinks {v : View} {env : Env} {f : Filter} {cs out : List C
   | demeLimit limit =>
     simp only [applyFilter, Option.some.injEq] at h
     subst h
-    exact shrinks_map _ _ fun c => ⟨rfl, rfl, demeLimit_subperm _ _ _⟩
+    exact shrinks_map _ _ fun c => ⟨rfl, rfl, rfl, demeLimit_subperm _ _ _⟩
   | levelLimit limit =>
     simp only [applyFilter] at h
     -- no bound on activity is needed for "only removes"
@@ -339,10 +339,10 @@ theorem applyFilter_shrinks {v : View} {env : Env} {f : Filter} {cs out : List C
     apply shrinks_map
     intro c
     split
-    · exact ⟨rfl, rfl, List.Subperm.refl _⟩
+    · exact ⟨rfl, rfl, rfl, List.Subperm.refl _⟩
     · split
-      · exact ⟨rfl, rfl, List.Subperm.refl _⟩
-      · exact ⟨rfl, rfl, List.filter_sublist.subperm⟩
+      · exact ⟨rfl, rfl, rfl, List.Subperm.refl _⟩
+      · exact ⟨rfl, rfl, rfl, List.filter_sublist.subperm⟩
 
 theorem applyFilters_shrinks {v : View} {env : Env} {fs : List Filter} {cs out : List Cand}
     (h : applyFilters v env fs cs = some out) : Shrinks cs out := by
